@@ -52,12 +52,14 @@ impl<D: TextDecorator> TextRenderer<D> {
     // impl on SubRenderer
     /// Add link to global link collection
     pub fn start_link(&mut self, target: &str) -> Result<()> {
+        verif_tick!(Step);
         self.links.push(target.to_string());
         self.subrender.last_mut().unwrap().start_link(target)?;
         Ok(())
     }
 
     pub fn end_link(&mut self) -> Result<()> {
+        verif_tick!(Step);
         self.subrender.last_mut().unwrap().end_link()?;
 
         if self.options.include_link_footnotes {
@@ -370,6 +372,7 @@ impl<T: Clone + Eq + Debug + Default> WrappedBlock<T> {
     }
 
     fn flush_word(&mut self, ws_mode: WhiteSpace) -> Result<()> {
+        verif_tick!(Step);
         use self::TaggedLineElement::Str;
 
         /* Finish the word. */
@@ -523,6 +526,7 @@ impl<T: Clone + Eq + Debug + Default> WrappedBlock<T> {
     }
 
     fn force_flush_line(&mut self) {
+        verif_tick!(Step);
         let mut tmp_line = TaggedLine::new();
         mem::swap(&mut tmp_line, &mut self.line);
         if self.pad_blocks {
@@ -1145,6 +1149,7 @@ fn get_wrapping_or_insert<'w, D: TextDecorator>(
 impl<D: TextDecorator> SubRenderer<D> {
     /// Render links as lines
     pub fn finalise(&mut self, links: Vec<String>) -> Vec<TaggedLine<D::Annotation>> {
+        verif_tick!(Step);
         if self.options.include_link_footnotes {
             self.decorator.finalise(links)
         } else {
@@ -1174,6 +1179,7 @@ impl<D: TextDecorator> SubRenderer<D> {
     /// Append a line to the output.
     /// Any pending fragments will be prepended to a non-border line.
     fn add_line(&mut self, line: RenderLine<Vec<D::Annotation>>) {
+        verif_tick!(Step);
         if !self.pending_frags.is_empty() {
             match line {
                 RenderLine::Text(tagged_line) => {
@@ -1204,6 +1210,7 @@ impl<D: TextDecorator> SubRenderer<D> {
 
     /// Flushes the current wrapped block into the lines.
     fn flush_wrapping(&mut self) -> Result<()> {
+        verif_tick!(Step);
         if let Some(mut w) = self.wrapping.take() {
             let frags = w.take_trailing_fragments();
             self.extend_lines(w.into_lines()?.into_iter().map(RenderLine::Text));
@@ -1246,6 +1253,7 @@ impl<D: TextDecorator> SubRenderer<D> {
 
     /// Wrap links to width
     pub fn fmt_links(&mut self, mut links: Vec<TaggedLine<D::Annotation>>) {
+        verif_tick!(Step);
         for line in links.drain(..) {
             /* Hard wrap */
             let mut pos = 0;
@@ -1342,6 +1350,7 @@ impl<D: TextDecorator> Renderer for SubRenderer<D> {
     }
 
     fn new_sub_renderer(&self, width: usize) -> Result<Self> {
+        verif_tick!(Step);
         let mut result = SubRenderer::new(
             width,
             self.options.clone(),
@@ -1353,6 +1362,7 @@ impl<D: TextDecorator> Renderer for SubRenderer<D> {
     }
 
     fn start_block(&mut self) -> Result<()> {
+        verif_tick!(Step);
         html_trace!("start_block({})", self.width);
         self.flush_all()?;
         if self.lines.iter().any(|l| l.has_content()) {
@@ -1420,6 +1430,7 @@ impl<D: TextDecorator> Renderer for SubRenderer<D> {
     }
 
     fn add_inline_text(&mut self, text: &str) -> Result<()> {
+        verif_tick!(Step);
         html_trace!("add_inline_text({}, {})", self.width, text);
         if !self.ws_mode().preserve_whitespace()
             && self.at_block_end
@@ -1472,6 +1483,7 @@ impl<D: TextDecorator> Renderer for SubRenderer<D> {
     {
         use self::TaggedLineElement::Str;
 
+        verif_tick!(Step);
         self.flush_wrapping()?;
         let tag = self.ann_stack.clone();
 
@@ -1514,6 +1526,7 @@ impl<D: TextDecorator> Renderer for SubRenderer<D> {
         Self: Sized,
     {
         use self::TaggedLineElement::Str;
+        verif_tick!(Step);
         html_trace!("append_columns_with_borders(collapse={})", collapse);
         html_trace!("self=<<<\n{}>>>", self.to_string());
 
@@ -1657,6 +1670,7 @@ impl<D: TextDecorator> Renderer for SubRenderer<D> {
         I: IntoIterator<Item = Self>,
         Self: Sized,
     {
+        verif_tick!(Step);
         html_trace!("append_vert_row()");
         html_trace!("self=\n{}", self.to_string());
 
@@ -1795,6 +1809,7 @@ impl<D: TextDecorator> Renderer for SubRenderer<D> {
     }
 
     fn record_frag_start(&mut self, fragname: &str) {
+        verif_tick!(Step);
         use self::TaggedLineElement::FragmentStart;
 
         get_wrapping_or_insert::<D>(&mut self.wrapping, &self.options, self.width)
